@@ -95,11 +95,22 @@ def gen_cases(tier, seed):
             if ctor == "fixed":
                 g["n"] = int(rng.integers(5, 30))
             lev = int(rng.integers(0, 3 if thorough else 2))
-            meths = list(C.METHODS_1D) if thorough else [C.METHODS_1D[(i + k) % 6] for k in (0, 2, 4)]
-            cases.append({"kind": "chain", "model": m, "grid": g, "level": lev, "methods": meths, "seed": int(rng.integers(2**31))})
+            meths = list(C.METHODS_1D) if thorough else [C.METHODS_1D[(len(cases) + k) % 6] for k in (0, 2, 3)]
+            cases.append({"kind": "chain", "model": m, "grid": g, "level": lev, "methods": meths, "seed": int(rng.integers(2**31)),
+                          "refine_after": bool(i % 4 < 2)})
+    # every method once more in a fixed "use, refine, rebuild" sequence
+    for k, meth in enumerate(C.METHODS_1D):
+        g = G.gen_grid_spec(rng, ["fixed", "uniform", "geometric"][k % 3], 1)
+        if g["ctor"] == "fixed":
+            g["n"] = 13
+        if g["ctor"] == "uniform":
+            g["h_div"] = 6.0
+        cases.append({"kind": "chain", "model": fixed[(2 * k) % len(fixed)], "grid": g, "level": 0, "methods": [meth],
+                      "seed": int(rng.integers(2**31)), "refine_after": True})
     # chains: n-d (finite-variation margins: see C01)
+    n2 = n3 = 0
     for j in range(8 if not thorough else 60):
-        dim = 2 if j % 3 else 3
+        dim = 3 if j % 4 == 3 else 2
         kind = ["clayton", "independent", "clayton", "dependent"][j % 4]
         cm = W.gen_copula_model_spec(rng, dim=dim, kind=kind)
         for ms in cm["margins"]:
@@ -109,14 +120,31 @@ def gen_cases(tier, seed):
             if ms["family"] == "MERTON":
                 ms["params"]["mu_j"] = min(ms["params"]["mu_j"], 0.05)
                 ms["params"]["sigma_j"] = max(ms["params"]["sigma_j"], 0.08)
-        ctor = ["fixed", "geometric_bounds", "credit", "credit_asym", "geometric"][j % 5] if dim == 2 else ["fixed", "geometric_bounds", "credit"][j % 3]
+        # credit_asym / uniform: the origin is not centred, the state enumeration has to skip outside indices
+        if dim == 2:
+            ctor = ["credit_asym", "uniform", "fixed", "geometric_bounds", "credit", "geometric"][n2 % 6]
+            n2 += 1
+        else:
+            ctor = ["credit_asym", "fixed", "geometric_bounds"][n3 % 3]
+            n3 += 1
         g = G.gen_grid_spec(rng, ctor, dim)
         if ctor == "fixed":
             g["n"] = int(rng.integers(5, 10 if dim == 2 else 6))
             g["h"] = W.r6(W._logu(rng, 0.02, 0.2))
         if ctor in ("geometric", "geometric_bounds"):
             g["n_side"] = int(rng.integers(2, 5 if dim == 2 else 3))
-        cases.append({"kind": "chain", "model": cm, "grid": g, "level": 0, "methods": list(C.METHODS_ND), "seed": int(rng.integers(2**31))})
+        if ctor == "uniform":
+            g["h_div"] = W.r6(rng.uniform(2.5, 4.0))
+        cases.append({"kind": "chain", "model": cm, "grid": g, "level": 0, "methods": list(C.METHODS_ND), "seed": int(rng.integers(2**31)),
+                      "refine_after": bool(j % 2 == 0 and dim == 2)})
+    # markedly off-centre origin in 2-d (many more states on one side): the inversion enumeration skips whole runs of indices
+    for j in range(2 if not thorough else 10):
+        e1, e2 = (W.r6(rng.uniform(5, 9)), W.r6(rng.uniform(25, 40))) if j % 2 == 0 else (W.r6(rng.uniform(25, 40)), W.r6(rng.uniform(5, 9)))
+        margins = [{"family": "HEM", "params": {"sigma": 0.1, "p": 0.5, "eta1": e1, "eta2": e2, "intensity": W.r6(rng.uniform(1, 5))}, "exp": False}
+                   for _ in range(2)]
+        cm = {"margins": margins, "copula": W.gen_copula_spec(rng, "clayton")}
+        cases.append({"kind": "chain", "model": cm, "grid": {"ctor": "uniform", "dim": 2, "h_div": W.r6(rng.uniform(2.2, 3.2)), "p": 0.99},
+                      "level": 0, "methods": ["INVERSION"], "seed": int(rng.integers(2**31))})
     if thorough:
         for j in range(6):
             cases.append({"kind": "inversion-storage", "nl": int(rng.integers(2, 6)), "nr": int(rng.integers(2, 6)), "dim": 2 + j % 2,
@@ -300,16 +328,26 @@ def _run_raw(case, R):
 def _run_chain(case, R):
     mspec, lev = case["model"], case["level"]
     is_copula = "margins" in mspec
-    label = W.any_label(mspec)
     rng = np.random.default_rng(case["seed"])
     try:
         model, grid, g = C.build_grid_and_model(mspec, case["grid"], lev)
     except (G.OutsideDomain, ValueError) as exc:
         R.skip("outside-domain: " + type(exc).__name__)
         return
+    _chain_body(case, R, mspec, model, grid, g, lev, rng, is_copula)
+    if case.get("refine_after"):
+        # the sequence the multilevel engine runs: the samplers of level l have been used, the grid is refined in place and a
+        # new chain is built in the same process -- its sampler must realise ITS OWN law (no state shared across samplers)
+        grid.refine()
+        R.klass("sequence:refined-after-use")
+        _chain_body(case, R, mspec, model, grid, g, lev + 1, rng, is_copula)
+
+
+def _chain_body(case, R, mspec, model, grid, g, lev, rng, is_copula):
+    label = W.any_label(mspec)
     d = grid.dimension
     sizes = [len(a) for a in grid.axes]
-    if math.prod(sizes) > (400 if d == 1 else (150 if d == 2 else 250)):
+    if math.prod(sizes) > (400 if d == 1 else ((150 if len(case['methods']) > 1 else 500) if d == 2 else 350)):
         R.skip("grid-too-large-for-law-measurement")
         return
     ctor = g["ctor"]
